@@ -31,6 +31,11 @@ P = {
          "property's configuration grid, and the direct oracle compares every list with an independent rule oracle and with packaging.tags (probes stubbed).",
          "trusted: Coq kernel (closed under the global context; vm_compute for the finite sweep); the hand model is tied to the code by the exhaustive correspondence; packaging.tags as the order reference",
          "machine-checked proof in Coq over a hand model + correspondence exhaustive on the property's domain", "5"),
+ "C08": ("proof", "Theorem C08 over Model/Tags.v: _evaluate_python returns Some (X, Y|0, rank) exactly when the implementation/ABI side conditions hold AND some position admitted by requires_python "
+         "lies in the wheel's loadable interval (cpXY: the X.Y series, abi3: >= X.Y, pyXY: >= X.Y within major X, pyX: the X series), None otherwise; for every canonical requires_python and ALL minors. "
+         "The emptiness test is the GENERATED `&`/is_empty, and the proof uses C01/C05 exactness. Tie: S-tags stream (model vs _evaluate_python over the tag universe x requires_python x implementation grid).",
+         TB_PROOF + "; Model/Tags.v is hand-written (string slicing / replace / lower / startswith) and tied by the S-tags stream",
+         "machine-checked proof in Coq over a hand model on top of the regenerated algebra + correspondence", "5"),
  "C19": ("proof", "C19_and/or/inv/dispatch for ALL strings over Model/Generic.v (hand model of generic.py, tied by the exhaustive S-generic stream over 8 operators x a "
          "literal pool closed under the relations the case table inspects); Empty/Any membership is the regenerated special.py.",
          "trusted: Coq kernel (closed under the global context); the hand model is tied to generic.py only by the exhaustive correspondence stream; translator for special.py",
@@ -42,7 +47,6 @@ ORACLE_ONLY = {
  "C04": "membership vs the Boolean combination of packaging's SpecifierSet(leaf).contains on final releases; additionally re-checks the C01 proof cone and S-gen (the statement relies on algebra exactness)",
  "C06": "str() never raises and parse(str(s)) == s over parsed specifiers and &,|,~ trees",
  "C07": "str(m) accepted by parse_marker and packaging, re-parsed marker evaluates identically; <empty>/'' specials",
- "C08": "python/abi compatibility vs 'some admitted interpreter can load it' over the tag universe x requires_python grid",
  "C10": "rendered text and truth table of a probe after a random history vs the same probe run first in a fresh interpreter",
  "C11": "specifier view of python_version/python_full_version atoms and from_specifier round trip vs packaging over an interpreter grid",
  "C12": "only()/exclude()/without_extras(): leaked variables, implication, identity on environment grids",
